@@ -349,3 +349,21 @@ def check_insert_anchors(m, rule, unit, prim_name_hint, list_struct, node_struct
         else:
             rule.violation(site, '%s() links the new node %s its anchor, and %s passes %s as anchor: the element does not end up %s (expected anchor: %s)'
                            % (prim.name, d.upper(), name, k, what, exp), c.loc(), {'direction': d, 'anchor': str(k)})
+
+
+def current_values(f, root, steps, after=()):
+    """SSA values that stand for the content of (root).steps once the exchange is done: loads of that location that all
+    `after` instructions dominate, and the values stored into it (store-to-load forwarding replaces the former by the latter)"""
+    from .ir import resolve_addr
+    from .facts import strip_bitcasts
+    out = set()
+    for i in f.all_insts():
+        if i.op == 'load':
+            a = resolve_addr(f, i.o[0])
+            if strip_bitcasts(f, a.root) == root and tuple(a.steps) == tuple(steps) and all(f.dominates(c, i) for c in after):
+                out.add(i.ref)
+        elif i.op == 'store':
+            a = resolve_addr(f, i.o[1])
+            if strip_bitcasts(f, a.root) == root and tuple(a.steps) == tuple(steps) and isinstance(i.o[0], str):
+                out.add(strip_bitcasts(f, i.o[0]))
+    return out
